@@ -84,7 +84,7 @@ impl<Req: VClone, Res, E, P: Fn(&E) -> bool, F: Fn(&Req) -> usize> Retry<Req, Re
     pub fn poll_ready(&mut self, cx: &mut Context) -> (r: Poll<Result<(), E>>)
         ensures
             r matches Poll::Ready(Ok(_)) ==> final(self).inner.ready@,   // #ready_only_when_inner_ready [C20]
-            final(self).config == old(self).config,   // #frame
+            final(self).config == old(self).config,   // #shared_state_handles_and_configuration_are_left_untouched [C05]
     //@body Retry::poll_ready@Service
 
     pub fn call(&mut self, req: Req, clk: &mut Clock, Tracked(tr): Tracked<&mut Trace<Req, Res, E>>) -> (result: Result<Res, E>)
@@ -101,7 +101,7 @@ impl<Req: VClone, Res, E, P: Fn(&E) -> bool, F: Fn(&Req) -> usize> Retry<Req, Re
             final(tr).ready_err matches Some(e) ==> result == Err::<Res, E>(e),   // #a_readiness_error_between_attempts_ends_the_request_with_that_error [C20]
             forall|i: int| 0 <= i < final(tr).reqs.len() ==> final(tr).reqs[i] == req,   // #every_attempt_carries_the_request [C05,C20]
             result is Ok ==> final(tr).calls == final(tr).reqs.len(),   // #bookkeeping
-            final(self).config == old(self).config,   // #frame
+            final(self).config == old(self).config,   // #shared_state_handles_and_configuration_are_left_untouched [C05]
     //@body Retry::call@Service
 }
 fn main() {}
